@@ -261,6 +261,7 @@ func checkC11(c *Ctx) {
 	checkC11KeyNonZero(c)
 	checkC11Descent(c)
 	checkC11JoinRefs(c)
+	checkC11AllParents(c)
 
 	// ---- key-func ----
 	rf := c.Rule("C11.key-func", "identity maps are written and read through one key function", 4)
